@@ -82,9 +82,19 @@ pub fn roundtrip(toks: &[&str]) -> String {
     )
 }
 
+/// decode; when the decoder accepts, also encode the result and decode again (C12_decode_encode_decode)
 pub fn parse(toks: &[&str]) -> String {
     let b = unhex(toks[0]);
-    show_parse(&dhcppkt::parse(&b))
+    let p = dhcppkt::parse(&b);
+    let first = show_parse(&p);
+    match &p {
+        Ok(m) => {
+            let again = std::panic::catch_unwind(std::panic::AssertUnwindSafe(|| show_parse(&dhcppkt::parse(&m.serialise()))))
+                .unwrap_or_else(|_| "panic".to_string());
+            format!("{} || {}", first, again)
+        }
+        Err(_) => first,
+    }
 }
 
 pub fn bflag(toks: &[&str]) -> String {
